@@ -12,8 +12,17 @@ import (
 func main() {
 	level := flag.Int("level", 1, "universe level")
 	out := flag.String("out", "", "output .tl file")
-	universe := flag.String("universe", "", "\"\" = uni.Universe(level); \"reg\" = uni.UniverseReg(level) (registry/function universe; level 0 = alone, >= 1 merged with Universe(level))")
+	universe := flag.String("universe", "", "\"\" = uni.Universe(level); \"reg\" = uni.UniverseReg(level) (registry/function universe; level 0 = alone, >= 1 merged with Universe(level)); \"regtl2\" = uni.RegTL2Universe() (TL2 source text)")
 	flag.Parse()
+	if *universe == "regtl2" {
+		text, items := uni.RegTL2Universe()
+		if err := os.WriteFile(*out, []byte(text), 0o644); err != nil {
+			fmt.Fprintln(os.Stderr, err)
+			os.Exit(2)
+		}
+		fmt.Printf("TL2-source registry universe: %d expected registry items\n", len(items))
+		return
+	}
 	if *universe == "reg" {
 		ru := uni.UniverseReg(*level)
 		if err := os.WriteFile(*out, []byte(ru.Text()), 0o644); err != nil {
